@@ -115,8 +115,7 @@ def make_abs(case):
         if letter == "x":
             declined.add(num)
     a.out_rows = rows
-    a.in_rows = [S.row("T", "S", "D", ((11, "in2"),), 2, T0), S.row("T", "S", "0", (), 3, T0),
-                 S.row("T", "S", "D", ((11, "in4"),), 4, T0)]
+    a.in_rows = [S.row("T", "S", "0", (), 3, T0), S.row("T", "S", "D", ((11, "in4"),), 4, T0)]
     mode = case.get("sr", "letters")
     if mode == "none":
         sr, declined = "none", {r[0] for r in rows}
@@ -152,20 +151,36 @@ def foreign_keys(impl):
     return impl.c06_keys
 
 
+_FROWS = {}
+
+
 def foreign_rows(impl, a):
     """rows of the other sessions: numbers below, inside and above every range that can be requested from
-    `a`, both directions; returns (message rows, [(key, storedOut, storedIn)])"""
+    `a`, both directions; returns (message rows, counter updates, the snapshot these make)"""
     k2, k3 = foreign_keys(impl)
-    lo, hi = max(1, a.next_out - 7), a.next_out + 2
+    no = a.next_out
+    ck = (id(impl), no)
+    if ck in _FROWS:
+        return _FROWS[ck]
+    lo, hi = max(1, no - 7), no + 2
     rows = []
-    for n in range(lo, hi + 1):
-        rows.append((n, k2, 1, _fbytes("S2", "T2", n)))      # MessageDirection.OUTBOUND
-        rows.append((n, k2, 0, _fbytes("T2", "S2", n)))      # INBOUND
-    for n in (lo, a.next_out - 1, a.next_out + 1):
+    for n in {lo, no - 3, no - 2, no - 1, no + 1}:           # below / inside / above any requestable range
+        if n >= 1:
+            rows.append((n, k2, 1, _fbytes("S2", "T2", n)))   # MessageDirection.OUTBOUND
+    for n in {lo, no - 1, no + 1}:
+        if n >= 1:
+            rows.append((n, k2, 0, _fbytes("T2", "S2", n)))   # INBOUND
+    for n in {no - 1, no + 1}:
         if n >= 1:
             rows.append((n, k3, 1, _fbytes("S", "T9", n)))
     rows = sorted(set(rows))
-    return rows, [(k2, hi, hi), (k3, a.next_out + 1, 0)]
+    counters = [(k2, hi, hi), (k3, no + 1, 0)]
+    expect = (sorted((k, d, n, m) for (n, k, d, m) in rows),
+              sorted([(k2, "T2", "S2", hi, hi), (k3, "T9", "S", no + 1, 0)]))
+    if len(_FROWS) > 64:
+        _FROWS.clear()
+    _FROWS[ck] = (rows, counters, expect)
+    return _FROWS[ck]
 
 
 def snapshot_others(impl):
@@ -183,13 +198,15 @@ def step_shared(impl, a, sr, ev):
     returns (effects, post-state of OUR session, other sessions before, other sessions after)"""
     impl.load(a)
     cur = impl.journal.cursor
-    assert impl.MD.OUTBOUND.value == 1 and impl.MD.INBOUND.value == 0
-    rows, counters = foreign_rows(impl, a)
+    rows, counters, before = foreign_rows(impl, a)
     cur.executemany("INSERT INTO message VALUES(?, ?, ?, ?)", rows)
     for k, so, si in counters:
         cur.execute("UPDATE session SET outboundSeqNo=?, inboundSeqNo=? WHERE sessionId=?", (so, si, k))
     impl.journal.conn.commit()
-    before = snapshot_others(impl)
+    if not getattr(impl, "c06_checked", False):     # once per Impl: the computed snapshot is what SQLite holds
+        assert impl.MD.OUTBOUND.value == 1 and impl.MD.INBOUND.value == 0
+        assert snapshot_others(impl) == before, (snapshot_others(impl), before)
+        impl.c06_checked = True
     impl.apply(sr, ev)
     eff, post = impl.effects(), impl.dump()
     return eff, post, before, snapshot_others(impl)
